@@ -1176,7 +1176,14 @@ impl<'a> Run<'a> {
         }
         self.reqs[i].state = RState::Cancelled;
         self.reqs[i].expect = None;
-        self.dirty_since_cancel[o] = true;
+        // (every configured spelling of the same origin shares one pool key)
+        let canon = |u: &str| u.parse::<http::Uri>().map(|u| origin_of(&u)).unwrap_or_default();
+        let key = canon(&self.case.cfg.origins[o]);
+        for j in 0..self.case.cfg.origins.len() {
+            if canon(&self.case.cfg.origins[j]) == key {
+                self.dirty_since_cancel[j] = true;
+            }
+        }
         let step = self.w.lock().step;
         self.w.lock().ev(3, req as u64, 0);
         self.checkout_ended.push((o, step));
